@@ -177,9 +177,7 @@ Definition run_stripe_h (a : list Z) : list Z :=
 Definition run_check_taps (a : list Z) : list Z :=
   match a with
   | [b0; b1; p0; p1; n; s; kd; d; k; lo; hi; top; r0] =>
-      [bz (forallb (fun i => forallb (fun ky =>
-             tap_eqb (hw_tap b0 b1 p0 p1 n s kd i (ky * d)) (ref_tap lo hi top s (r0 + i) (ky * d)))
-             (range_from (Z.to_nat k) 0 1)) (range_from (Z.to_nat n) 0 1))]
+      [bz (check_stripe_taps b0 b1 p0 p1 n s kd d k lo hi top r0)]
   | _ => [-1]
   end.
 
